@@ -5,6 +5,7 @@ package main
 
 import (
 	"fmt"
+	"regexp"
 	"sort"
 	"strings"
 	"sync"
@@ -115,16 +116,8 @@ func applyIgnore(bt *gen.Built, lineID int, c ignCase, code string, rng *base.Ra
 		if c.where != "prev" || !self.IsStatement() || len(self.N.Pre) == 0 || len(self.Parent.Pre) != 1 {
 			return false, ""
 		}
-		{
-			pfirst := strings.TrimSpace(self.Parent.Pre[0].Text)
-			holds := false
-			for _, pre := range []string{"func ", "if ", "for ", "case ", "default:", "{"} {
-				holds = holds || strings.HasPrefix(pfirst, pre) && (strings.HasSuffix(pfirst, "{") || strings.HasSuffix(pfirst, ":"))
-			}
-			first := strings.TrimSpace(self.N.Pre[0].Text)
-			if !holds || strings.Contains(first, ":=") || strings.HasPrefix(first, "var ") || strings.HasPrefix(first, "const ") || strings.HasPrefix(first, "type ") {
-				return false, ""
-			}
+		if !movableIntoClause(self) {
+			return false, ""
 		}
 		{
 			head, next := "switch {", "default:"
@@ -145,23 +138,36 @@ func applyIgnore(bt *gen.Built, lineID int, c ignCase, code string, rng *base.Ra
 			second := &gen.Node{Pre: []*gen.Line{p.NewLine(next)}, Kids: []*gen.Node{{Pre: []*gen.Line{p.NewLine("_ = 2")}}, self.N}}
 			self.Parent.Kids[self.Index] = &gen.Node{Pre: []*gen.Line{p.NewLine(head)}, Kids: []*gen.Node{firstClause, second}, Post: []*gen.Line{p.NewLine("}")}}
 		}
+	case "lead-first-clause":
+		// the comment stands alone at the head of a switch / select body, before the first clause, and the statement of the
+		// diagnostic is the only statement of that clause: it is the following statement under every reading
+		if c.where != "in" || !self.IsStatement() || len(self.N.Pre) == 0 || len(self.Parent.Pre) != 1 {
+			return false, ""
+		}
+		if !movableIntoClause(self) {
+			return false, ""
+		}
+		{
+			forms := [][3]string{{"switch {", "case true:", "tagless"}, {"switch 1 {", "case 1:", "tagged"}, {"switch any(nil).(type) {", "default:", "type-switch"}, {"switch ok := true; {", "case ok:", "init-only"}, {"select {", "default:", "select"}}
+			fm := forms[rng.Intn(len(forms))]
+			desc += "+" + fm[2]
+			clause := &gen.Node{Pre: []*gen.Line{p.NewLine(fm[1])}, Kids: []*gen.Node{self.N}, Lead: []*gen.Ignore{ig}}
+			sw := &gen.Node{Pre: []*gen.Line{p.NewLine(fm[0])}, Kids: []*gen.Node{clause}, Post: []*gen.Line{p.NewLine("}")}}
+			if rng.Bool() {
+				// ... the switch being itself the last statement of an outer clause (the three nodes end at the same place)
+				sw = &gen.Node{Pre: []*gen.Line{p.NewLine("switch {")}, Kids: []*gen.Node{{Pre: []*gen.Line{p.NewLine("default:")}, Kids: []*gen.Node{{Pre: []*gen.Line{p.NewLine("_ = 3")}}, sw}}}, Post: []*gen.Line{p.NewLine("}")}}
+				desc += "+last-in-outer-clause"
+			}
+			self.Parent.Kids[self.Index] = sw
+		}
 	case "lead-stmt-last-in-clause":
 		// the statement of the diagnostic becomes the LAST statement of a case clause (a clause has no closing token of
 		// its own: the statement ends exactly where the clause ends); the comment leads it, its scope is that statement
 		if c.where != "in" || !self.IsStatement() || len(self.N.Pre) == 0 {
 			return false, ""
 		}
-		pfirst := strings.TrimSpace(self.Parent.Pre[0].Text)
-		holdsStatements := false
-		for _, pre := range []string{"func ", "if ", "for ", "case ", "default:", "{"} {
-			holdsStatements = holdsStatements || strings.HasPrefix(pfirst, pre) && (strings.HasSuffix(pfirst, "{") || strings.HasSuffix(pfirst, ":"))
-		}
-		if !holdsStatements || len(self.Parent.Pre) != 1 {
-			return false, "" // an element of a literal, a member of a var group, an argument line: not a statement list
-		}
-		first := strings.TrimSpace(self.N.Pre[0].Text)
-		if strings.Contains(first, ":=") || strings.HasPrefix(first, "var ") || strings.HasPrefix(first, "const ") || strings.HasPrefix(first, "type ") {
-			return false, "" // a declaration later statements may refer to: it cannot move into a clause
+		if !movableIntoClause(self) {
+			return false, ""
 		}
 		clauseHead := []string{"default:", "case true:", "case 1 > 0, false:"}[rng.Intn(3)]
 		clause := &gen.Node{Pre: []*gen.Line{p.NewLine(clauseHead)}, Kids: []*gen.Node{self.N}}
@@ -301,6 +307,27 @@ func applyIgnore(bt *gen.Built, lineID int, c ignCase, code string, rng *base.Ra
 	return true, desc
 }
 
+var labelRe = regexp.MustCompile(`^[A-Za-z_][A-Za-z0-9_]*:($|[^=])`)
+
+// movableIntoClause: the statement can be wrapped into a new switch clause without changing what compiles - its parent
+// holds a statement list (not literal elements, group members, argument lines), it declares nothing later statements
+// may refer to, and it carries no label a goto may target.
+func movableIntoClause(self gen.StmtRef) bool {
+	if self.Parent == nil || len(self.Parent.Pre) != 1 || len(self.N.Pre) == 0 {
+		return false
+	}
+	pfirst := strings.TrimSpace(self.Parent.Pre[0].Text)
+	holds := false
+	for _, pre := range []string{"func ", "if ", "for ", "case ", "default:", "{"} {
+		holds = holds || strings.HasPrefix(pfirst, pre) && (strings.HasSuffix(pfirst, "{") || strings.HasSuffix(pfirst, ":"))
+	}
+	first := strings.TrimSpace(self.N.Pre[0].Text)
+	if !holds || strings.Contains(first, ":=") || strings.HasPrefix(first, "var ") || strings.HasPrefix(first, "const ") || strings.HasPrefix(first, "type ") {
+		return false
+	}
+	return !labelRe.MatchString(first)
+}
+
 func flatNode(n *gen.Node) []*gen.Line {
 	var out []*gen.Line
 	out = append(out, n.Pre...)
@@ -321,7 +348,7 @@ func checkC07(replay string) {
 		p  string
 		ws []string
 	}{{"trailing", []string{"in", "prev", "next"}}, {"lead-stmt", []string{"in", "prev", "next"}}, {"lead-compound", []string{"in"}},
-		{"lead-decl", []string{"in", "prev", "next"}}, {"lead-decl-gap", []string{"in", "next"}}, {"file", []string{"in", "other-file"}}, {"package-clause-trailing", []string{"in"}}, {"dangling-end-of-body", []string{"prev"}}, {"trailing-on-closing-line", []string{"in", "prev"}}, {"lead-stmt-last-in-clause", []string{"in"}}, {"dangling-end-of-clause", []string{"prev"}}} {
+		{"lead-decl", []string{"in", "prev", "next"}}, {"lead-decl-gap", []string{"in", "next"}}, {"file", []string{"in", "other-file"}}, {"package-clause-trailing", []string{"in"}}, {"dangling-end-of-body", []string{"prev"}}, {"trailing-on-closing-line", []string{"in", "prev"}}, {"lead-stmt-last-in-clause", []string{"in"}}, {"dangling-end-of-clause", []string{"prev"}}, {"lead-first-clause", []string{"in"}}} {
 		for _, w := range pl.ws {
 			placements = append(placements, ignCase{placement: pl.p, where: w})
 		}
